@@ -202,17 +202,20 @@ def r20_6(ctx):
     ctx.fn(k)
     models = [("asyncio.get_event_loop", lambda px_, t, a, k_, fr: Sym("thread_loop")), ("asyncio.get_running_loop", lambda px_, t, a, k_, fr: Sym("thread_loop")),
               ("await:connection_future", Outcomes(OK(True))), ("zigpy.serial.create_serial_connection", Outcomes(OK((Sym("transport"), Sym("proto")))))]
-    px = PX(repo, models=models, inline=lambda g, aw: False, facts={"(None is config[zigpy.config.CONF_DEVICE_FLOW_CONTROL])": True})
-    for p in px.explore(k, lambda: (None, {"config": Sym("config"), "application": Sym("app")})):
-        news = {e.what: e for e in p.events if e.kind == "new"}
-        gw = news.get("Gateway")
-        ash = news.get("AshProtocol")
-        r = p.value
-        ok = (p.terminal == "return" and gw is not None and gw.args[:1] == (Sym("app"),) and ash is not None and isinstance(ash.args[0], Obj)
-              and ash.args[0].cls_name == "Gateway" and isinstance(r, tuple) and isinstance(r[0], Obj) and r[0].cls_name == "ThreadsafeProxy"
-              and r[0].fields.get("obj") is ash.args[0] and r[0].fields.get("obj_loop") == Sym("thread_loop"))
-        ctx.require(ok, "_connect:wiring", f"_connect: Gateway{gw.args if gw else None!r}, AshProtocol{ash.args if ash else None!r}, returns {r!r:.120}", func=k,
-                    trace=p.trace(14))
+    for flow in (None, "hardware"):
+      # (the flow-control setting is a concrete configuration value: tables indexed by it resolve)
+      px = PX(repo, models=models + [("item:config[zigpy.config.CONF_DEVICE_FLOW_CONTROL]", lambda *a_, flow=flow: flow)],
+              inline=lambda g, aw: g.cls is None and g.mod == U and not g.is_async and g.name not in ("connect", "_connect"))
+      for p in px.explore(k, lambda: (None, {"config": Sym("config"), "application": Sym("app")})):
+          news = {e.what: e for e in p.events if e.kind == "new"}
+          gw = news.get("Gateway")
+          ash = news.get("AshProtocol")
+          r = p.value
+          ok = (p.terminal == "return" and gw is not None and gw.args[:1] == (Sym("app"),) and ash is not None and isinstance(ash.args[0], Obj)
+                and ash.args[0].cls_name == "Gateway" and isinstance(r, tuple) and isinstance(r[0], Obj) and r[0].cls_name == "ThreadsafeProxy"
+                and r[0].fields.get("obj") is ash.args[0] and r[0].fields.get("obj_loop") == Sym("thread_loop"))
+          ctx.require(ok, "_connect:wiring", f"_connect: Gateway{gw.args if gw else None!r}, AshProtocol{ash.args if ash else None!r}, returns {r!r:.120}", func=k,
+                      trace=p.trace(14))
 
 
 @rule("R20.7", ["C20", "C11", "C10"], "T-ORD", floor=2)
